@@ -31,6 +31,11 @@ EXC = {
     "URLError": urllib.error.URLError,
     "TypeError": TypeError,
     "LookupError": LookupError,
+    # what real networks raise: connection-type and time-out errors (subclasses of OSError)
+    "ConnectionResetError": ConnectionResetError,
+    "ConnectionRefusedError": ConnectionRefusedError,
+    "TimeoutError": TimeoutError,
+    "BrokenPipeError": BrokenPipeError,
 }
 
 SEAL_LOG = []
@@ -197,6 +202,9 @@ class SimTransport(object):
         if kind == "net_error":
             self.log.append(("urlopen", u, "fail"))
             self._fire("net_error")
+            if p.get("exc") in ("ConnectionResetError", "ConnectionRefusedError", "TimeoutError", "BrokenPipeError"):
+                # as urllib reports them: URLError whose .reason is the OS-level exception
+                raise urllib.error.URLError(EXC[p["exc"]]("dsim: %s for %r" % (p["exc"], u)))
             raise urllib.error.URLError("dsim: connection refused for %r" % (u,))
         if kind == "net_read_error":
             self.log.append(("urlopen", u, "fail"))
@@ -233,6 +241,8 @@ class SimTransport(object):
         if failing and kind in ("net_error", "net_read_error", "handler", None):
             t.log.append(("requests", u, "fail"))
             t._fire("net_error")
+            if p.get("exc") in ("ConnectionResetError", "ConnectionRefusedError", "TimeoutError", "BrokenPipeError"):
+                raise EXC[p["exc"]]("dsim: requests, %s for %r" % (p["exc"], u))
             raise OSError("dsim: requests.ConnectionError for %r" % (u,))
         if failing:
             t.log.append(("requests", u, "fail"))
